@@ -6,6 +6,9 @@ import Mathlib.Data.Finset.Card
 import Mathlib.Tactic.Ring
 import Mathlib.Tactic.FieldSimp
 import Mathlib.Tactic.Linarith
+import Mathlib.Tactic.Positivity
+import Mathlib.Algebra.Order.BigOperators.Group.Finset
+import Mathlib.Algebra.Order.Field.Basic
 /-!
 # Exact expectation of the CVM estimator (`distinct.Counter`) in a finite-distribution monad over ℚ
 
@@ -413,5 +416,173 @@ theorem unbiased (q : Nat → ℚ) (hq : ∀ k, k ≠ 0 → 2 ^ k * q k = 1) (si
   rw [Finset.sum_congr rfl (fun x hx => by
     rw [run_phi q hq x vs (new size) List.nodup_nil, if_pos (List.mem_toFinset.mp hx)])]
   simp
+
+/-! ### the code's fixed-point coin `qFix k = pOf k / 2^64 = 2^-k − 2^-64` -/
+
+/-- martingale part for an arbitrary coin: a value that does not occur in the stream keeps its φ -/
+theorem run_phi_notin (q : Nat → ℚ) (x : Nat) :
+    ∀ (vs : List Nat) (s : St), s.buf.Nodup → x ∉ vs → E (runD q s vs) (phi x) = phi x s := by
+  intro vs
+  induction vs with
+  | nil => intro s _ _; simp [runD]
+  | cons v vs ih =>
+    intro s hnd hx
+    have hxv : x ≠ v := fun e => hx (by simp [e])
+    have hxs : x ∉ vs := fun e => hx (by simp [e])
+    simp only [runD]
+    rw [E_bind, E_congr _ _ (phi x) (fun p hp => ih p.2 (add_support q s v hnd p hp).1 hxs)]
+    exact step_other q s v x hnd hxv
+
+theorem E_const {α} (d : Dist α) (c : ℚ) (hm : E d (fun _ => 1) = 1) : E d (fun _ => c) = c := by
+  have := E_smul c d (fun _ => 1)
+  simp only [mul_one] at this
+  rw [this, hm, mul_one]
+
+/-- upper bound: with a coin that never over-weights (`2^k q_k ≤ 1`), `E[2^k·1_{x∈buf}] ≤ 1` -/
+theorem run_phi_le (q : Nat → ℚ) (h0 : ∀ k, 0 ≤ q k) (h1 : ∀ k, q k ≤ 1) (hg : ∀ k, g q k ≤ 1) (x : Nat) :
+    ∀ (vs : List Nat) (s : St), s.buf.Nodup → x ∈ vs → E (runD q s vs) (phi x) ≤ 1 := by
+  intro vs
+  induction vs with
+  | nil => intro s _ hx; simp at hx
+  | cons v vs ih =>
+    intro s hnd hx
+    simp only [runD]
+    rw [E_bind]
+    by_cases hxs : x ∈ vs
+    · calc E (addD q s v) (fun a => E (runD q a vs) (phi x))
+          ≤ E (addD q s v) (fun _ => 1) :=
+            E_mono _ (nonneg_addD q h0 h1 s v) _ _ (fun p hp => ih p.2 (add_support q s v hnd p hp).1 hxs)
+        _ = 1 := add_mass q s v
+    · have hxv : x = v := by
+        rcases List.mem_cons.mp hx with h | h
+        · exact h
+        · exact absurd h hxs
+      subst hxv
+      rw [E_congr _ _ (phi x) (fun p hp => run_phi_notin q x vs p.2 (add_support q s x hnd p hp).1 hxs),
+        step_self q s x hnd]
+      exact hg _
+
+/-- lower bound: if `c ≤ g q k` at every level `k ≤ K`, then `c ≤ E[2^k·1_{x∈buf}]` for every stream with
+    `k₀ + (number of Adds) ≤ K` (each Add raises `k` by at most one) -/
+theorem run_phi_ge (q : Nat → ℚ) (h0 : ∀ k, 0 ≤ q k) (h1 : ∀ k, q k ≤ 1) (c : ℚ) (K : Nat)
+    (hlow : ∀ k, k ≤ K → c ≤ g q k) (x : Nat) :
+    ∀ (vs : List Nat) (s : St), s.buf.Nodup → x ∈ vs → s.k + vs.length ≤ K →
+      c ≤ E (runD q s vs) (phi x) := by
+  intro vs
+  induction vs with
+  | nil => intro s _ hx; simp at hx
+  | cons v vs ih =>
+    intro s hnd hx hK
+    simp only [List.length_cons] at hK
+    simp only [runD]
+    rw [E_bind]
+    by_cases hxs : x ∈ vs
+    · calc c = E (addD q s v) (fun _ => c) := (E_const _ c (add_mass q s v)).symm
+        _ ≤ E (addD q s v) (fun a => E (runD q a vs) (phi x)) :=
+            E_mono _ (nonneg_addD q h0 h1 s v) _ _ (fun p hp => by
+              obtain ⟨hn, _, _, hk⟩ := add_support q s v hnd p hp
+              exact ih p.2 hn hxs (by omega))
+    · have hxv : x = v := by
+        rcases List.mem_cons.mp hx with h | h
+        · exact h
+        · exact absurd h hxs
+      subst hxv
+      rw [E_congr _ _ (phi x) (fun p hp => run_phi_notin q x vs p.2 (add_support q s x hnd p hp).1 hxs),
+        step_self q s x hnd]
+      exact hlow _ (by omega)
+
+/-- the keep-probability of the code's coin at level `k`: the threshold over `2^64` -/
+def qFix (k : Nat) : ℚ := (pOf k : ℚ) / 2 ^ 64
+
+/-- `qFix k` is the fraction of 64-bit words on which the model's coin test `pOf k ≤ word` fails (keep) -/
+theorem coin_fraction (k : Nat) :
+    ((Finset.range (2 ^ 64)).filter (fun w => ¬ pOf k ≤ w)).card = pOf k := by
+  have hp : pOf k ≤ 2 ^ 64 := by
+    unfold pOf
+    exact Nat.le_trans (Nat.shiftRight_le _ _) (by decide)
+  have : (Finset.range (2 ^ 64)).filter (fun w => ¬ pOf k ≤ w) = Finset.range (pOf k) := by
+    ext w
+    simp only [Finset.mem_filter, Finset.mem_range]
+    omega
+  rw [this, Finset.card_range]
+
+theorem pOf_cast (k : Nat) (hk : k ≤ 64) : (pOf k : ℚ) = 2 ^ (64 - k) - 1 := by
+  have := pOf_succ_eq k (by omega)
+  have h2 : ((pOf k + 1 : Nat) : ℚ) = ((2 ^ (64 - k) : Nat) : ℚ) := by rw [this]
+  push_cast at h2
+  linarith
+
+theorem qFix_nonneg (k : Nat) : 0 ≤ qFix k := by
+  unfold qFix; positivity
+
+theorem qFix_le_one (k : Nat) : qFix k ≤ 1 := by
+  unfold qFix
+  rw [div_le_one (by positivity)]
+  have hp : pOf k ≤ 2 ^ 64 := by
+    unfold pOf
+    exact Nat.le_trans (Nat.shiftRight_le _ _) (by decide)
+  exact_mod_cast hp
+
+/-- the level function of the code's coin: `1` at level 0, `1 − 2^k/2^64` at levels `1..64` -/
+theorem g_qFix (k : Nat) (hk : k ≤ 64) : g qFix k = if k = 0 then 1 else 1 - 2 ^ k / 2 ^ 64 := by
+  unfold g
+  split
+  · rfl
+  · unfold qFix
+    rw [pOf_cast k hk]
+    have h : (2 : ℚ) ^ k * 2 ^ (64 - k) = 2 ^ 64 := by
+      rw [← pow_add]; congr 1; omega
+    have h64 : (2 : ℚ) ^ 64 ≠ 0 := by positivity
+    field_simp
+    linarith
+
+theorem g_qFix_big (k : Nat) (hk : 64 ≤ k) : g qFix k = 0 := by
+  unfold g qFix
+  rw [if_neg (by omega), pOf_ge64 k hk]
+  simp
+
+theorem g_qFix_le_one (k : Nat) : g qFix k ≤ 1 := by
+  by_cases hk : k ≤ 64
+  · rw [g_qFix k hk]
+    split
+    · exact le_refl _
+    · have : (0 : ℚ) ≤ 2 ^ k / 2 ^ 64 := by positivity
+      linarith
+  · rw [g_qFix_big k (by omega)]; exact zero_le_one
+
+theorem g_qFix_ge (k K : Nat) (hk : k ≤ K) : 1 - (2 : ℚ) ^ K / 2 ^ 64 ≤ g qFix k := by
+  have hpow : (2 : ℚ) ^ k ≤ 2 ^ K := pow_le_pow_right₀ (by norm_num) hk
+  have hdiv : (2 : ℚ) ^ k / 2 ^ 64 ≤ 2 ^ K / 2 ^ 64 := div_le_div_of_nonneg_right hpow (by positivity)
+  by_cases h64 : k ≤ 64
+  · rw [g_qFix k h64]
+    split
+    · have : (0 : ℚ) ≤ 2 ^ K / 2 ^ 64 := by positivity
+      linarith
+    · linarith
+  · rw [g_qFix_big k (by omega)]
+    have h1 : (2 : ℚ) ^ 64 ≤ 2 ^ k := pow_le_pow_right₀ (by norm_num) (by omega)
+    have h2 : (1 : ℚ) ≤ 2 ^ k / 2 ^ 64 := by
+      rw [le_div_iff₀ (by positivity)]; linarith
+    linarith
+
+/-- **Two-sided bound for the code's coin** (`q_k = 2^-k − 2^-64`): for every stream of `n` Adds with `D`
+    distinct values and every buffer size, `D·(1 − 2^n/2^64) ≤ E[Count] ≤ D`. -/
+theorem bias_bound (size : Nat) (vs : List Nat) :
+    (vs.toFinset.card : ℚ) * (1 - 2 ^ vs.length / 2 ^ 64) ≤ E (runD qFix (new size) vs) countQ ∧
+    E (runD qFix (new size) vs) countQ ≤ (vs.toFinset.card : ℚ) := by
+  rw [E_count_eq_sum]
+  constructor
+  · have := Finset.sum_le_sum (s := vs.toFinset) (f := fun _ => (1 : ℚ) - 2 ^ vs.length / 2 ^ 64)
+      (g := fun x => E (runD qFix (new size) vs) (phi x))
+      (fun x hx => run_phi_ge qFix qFix_nonneg qFix_le_one _ vs.length
+        (fun k hk => g_qFix_ge k vs.length hk) x vs (new size) List.nodup_nil (List.mem_toFinset.mp hx)
+        (by simp [new]))
+    rw [Finset.sum_const, nsmul_eq_mul] at this
+    exact this
+  · have := Finset.sum_le_sum (s := vs.toFinset) (f := fun x => E (runD qFix (new size) vs) (phi x))
+      (g := fun _ => (1 : ℚ))
+      (fun x hx => run_phi_le qFix qFix_nonneg qFix_le_one g_qFix_le_one x vs (new size) List.nodup_nil
+        (List.mem_toFinset.mp hx))
+    simpa [Finset.sum_const, nsmul_eq_mul] using this
 
 end MdsVerif.Proofs.DistinctExp
